@@ -120,7 +120,7 @@ Print Assumptions C07_roundtrip_a64_noncdecl_refuted.
    post-index restore sp, x29, x30 and every callee-saved X/D register and return to the caller's x30; sp is 16-byte aligned
    at every sp-based access (the machine is stuck otherwise); sp-relative stack arguments are exact; the emitters report no error *)
 Theorem C07_roundtrip_a64 : forall f, wf_in f -> fi_arch f = A64 ->
-  qget (cc_srsize (fi_cc f)) 1 = 8 -> fin_has_da f = false -> (fi_sa_reg f = id_bad \/ fi_sa_fix f = true) -> fo_stack_adj (finalize f) <= 16777215 ->
+  (qget (cc_srsize (fi_cc f)) 1 = 8 \/ fin_saved f 1 = 0) -> fin_has_da f = false -> (fi_sa_reg f = id_bad \/ fi_sa_fix f = true) -> fo_stack_adj (finalize f) <= 16777215 ->
   forall s0,
   let o := finalize f in let sp0 := st_reg s0 0 31 in
   st_ret s0 = None -> sp0 mod 16 = 0 -> 0 <= st_reg s0 0 30 < 2 ^ 64 ->
@@ -203,3 +203,34 @@ Theorem C07_exec_scenario_ok_x86 : forall f, wf_in f -> is_x86_family (fi_arch f
                   (fi_local_size f) (fo_callee_cleanup (finalize f))) = 0.
 Proof. exact exec_frame_ok_x86. Qed.
 Print Assumptions C07_exec_scenario_ok_x86.
+
+(* round 3: AArch64 analogue — the scenario executed on the extracted machine returns verdict 0 on the model's own prolog/epilog
+   for every AArch64 frame in the scope of C07_roundtrip_a64 *)
+Theorem C07_exec_scenario_ok_a64 : forall f, wf_in f -> fi_arch f = A64 ->
+  (qget (cc_srsize (fi_cc f)) 1 = 8 \/ fin_saved f 1 = 0) -> fin_has_da f = false -> (fi_sa_reg f = id_bad \/ fi_sa_fix f = true) -> fo_stack_adj (finalize f) <= 16777215 ->
+  forall sp0 ra, sp0 mod 16 = 0 -> 0 <= ra < 2 ^ 64 ->
+  fst (exec_frame A64 (fst (prolog f (finalize f))) (fst (epilog f (finalize f))) sp0 ra (fo_dirty (finalize f))
+                  (cc_preserved (fi_cc f)) (cc_srsize (fi_cc f)) (fi_has_fp f) (fi_call_size f) (fo_local_off (finalize f))
+                  (fi_local_size f) 0) = 0.
+Proof. exact exec_frame_ok_a64. Qed.
+Print Assumptions C07_exec_scenario_ok_a64.
+
+(* round 3: with the proposed refusal (fixes/C07-a64-refuse-unrealisable-frames.patch: finalize returns an error unless
+   `a64_realisable f`) the AArch64 round trip holds for EVERY frame finalize accepts and the emitters can encode *)
+Theorem C07_roundtrip_a64_accepted : forall f, wf_in f -> fi_arch f = A64 -> a64_realisable f = true ->
+  (fi_sa_reg f = id_bad \/ fi_sa_fix f = true) -> fo_stack_adj (finalize f) <= 16777215 ->
+  forall s0,
+  let o := finalize f in let sp0 := st_reg s0 0 31 in
+  st_ret s0 = None -> sp0 mod 16 = 0 -> 0 <= st_reg s0 0 30 < 2 ^ 64 ->
+  exists s1, run A64 (fst (prolog f o)) s0 = Some s1 /\ snd (prolog f o) = true /\
+    st_reg s1 0 31 = a64_sp_body f sp0 /\ st_ret s1 = None /\
+    a64_sp_body f sp0 mod fo_final_align o = 0 /\ a64_sp_body f sp0 + fo_sa_from_sp o = sp0 /\
+    (fi_sa_fix f = true -> fi_has_fp f = true -> st_reg s1 0 29 + fo_sa_from_sa o = sp0) /\
+    (fin_sa f <> 31 -> st_reg s1 0 (fin_sa f) + fo_sa_from_sa o = sp0) /\
+    forall s2, a64_body_ok f s0 s1 s2 ->
+      exists s3, run A64 (fst (epilog f o)) s2 = Some s3 /\ snd (epilog f o) = true /\
+        st_ret s3 = Some (st_reg s0 0 30) /\ st_reg s3 0 31 = sp0 /\
+        (forall g r, Z.testbit (qget (cc_preserved (fi_cc f)) g) r = true ->
+                     trunc (qget (cc_srsize (fi_cc f)) g) (st_reg s3 g r) = trunc (qget (cc_srsize (fi_cc f)) g) (st_reg s0 g r)).
+Proof. exact a64_roundtrip_accepted. Qed.
+Print Assumptions C07_roundtrip_a64_accepted.
